@@ -213,10 +213,69 @@ def further_edits(iso, cfg, sh=None):
         iso.rm_hard_link(joliet_path='/laterjl')
 
 
+def fresh_object_refusals(ctx):
+    """'wrong object state': new() / open_fp() refused on a FRESH object must leave it fresh -- a following new() gives the
+    image a brand-new object gives"""
+    import pycdlib
+
+    def build(o):
+        o.new(interchange_level=3)
+        o.add_fp(io.BytesIO(b'payload'), 7, iso_path='/AFTER.;1')
+        return sysimg.master(o)[0]
+    ref_obj = pycdlib.PyCdlib()
+    ref = build(ref_obj)
+    ref_obj.close()
+    full = pycdlib.PyCdlib()
+    full.new(rock_ridge='1.09', joliet=3, udf='2.60')
+    full.add_directory(iso_path='/D', rr_name='d', joliet_path='/d', udf_path='/d')
+    full.add_fp(io.BytesIO(b'x' * 5000), 5000, iso_path='/D/F.;1', rr_name='f', joliet_path='/d/f', udf_path='/d/f')
+    img = sysimg.master(full)[0]
+    full.close()
+    cases = [('new', 'vol_ident-too-long', lambda o: o.new(rock_ridge='1.09', vol_ident='x' * 40)),
+             ('new', 'invalid-joliet-level', lambda o: o.new(joliet=7)),
+             ('new', 'invalid-interchange-level', lambda o: o.new(interchange_level=9)),
+             ('new', 'invalid-rock-ridge-version', lambda o: o.new(rock_ridge='2.0')),
+             ('new', 'invalid-udf-version', lambda o: o.new(joliet=3, udf='1.02')),
+             ('new', 'app_use-too-long', lambda o: o.new(xa=True, rock_ridge='1.12', app_use='a' * 600)),
+             ('new', 'sys_ident-too-long', lambda o: o.new(joliet=3, sys_ident='s' * 40))]
+    for cut in (40000, 47000, 52000, len(img) - 3000, len(img) // 2, 34816, 33000):
+        cases.append(('open_fp', 'truncated-at-%d' % cut, lambda o, cut=cut: o.open_fp(io.BytesIO(img[:cut]))))
+    cases.append(('open_fp', 'garbage', lambda o: o.open_fp(io.BytesIO(b'\x01CD001' * 20000))))
+    for call, cause, f in cases:
+        o = pycdlib.PyCdlib()
+        ctx.case(('fresh', call, cause), True)
+        try:
+            f(o)
+            ctx.count('not-refused:%s:%s' % (call, cause))
+            o.close()
+            continue
+        except pycdlib.pycdlibexception.PyCdlibException:
+            pass
+        except Exception as e:
+            ctx.violation('c14:%s:%s:fault' % (call, cause), 'C14: %s (%s) on a fresh object raised %s instead of a library exception' % (call, cause, type(e).__name__),
+                          {'call': call, 'cause': cause})
+            continue
+        what = None
+        try:
+            got = build(o)
+            if got != ref:
+                what = 'a following new() + add_fp writes a different image than on a brand-new object (first difference at byte %s)' % sysimg.first_diff(got, ref)
+        except Exception as e:
+            what = 'a following new() / add_fp / write fails with %s: %s' % (type(e).__name__, str(e)[:80])
+        if what:
+            ctx.violation('c14:%s:%s:state-left' % (call, cause), 'C14: %s refused (%s) on a fresh object does not leave it fresh: %s' % (call, cause, what),
+                          {'call': call, 'cause': cause})
+        try:
+            o.close()
+        except Exception:
+            pass
+
+
 def run(ctx):
     common.proof_stage(ctx, MODULE, common.theorems_of(MODULE))
     common.setup_impl_path()
     import pycdlib
+    fresh_object_refusals(ctx)
     rng = ctx.rng
     quick = ctx.tier == 'quick'
     cfgs = syslevel.covering_configs(rng, 24)
